@@ -223,7 +223,6 @@ Definition to_f64 (v : value) : res f64 :=
   | VInt i => Ok (f_of_Z i)
   | VFloat f => Ok f
   | VStr s => aggressively_to_num s
-  | VDate ns => Ok (f_of_Z (floor_div ns 1000000))   (* timestamp_millis *)
   | _ => Err
   end.
 
@@ -272,7 +271,8 @@ Definition mk_date (ns : Z) : res value := if date_ok ns then Ok (VDate ns) else
 Definition in_i32 (z : Z) : bool := (- 2 ^ 31 <=? z) && (z <? 2 ^ 31).
 
 Definition int_or_float (exact : Z) (fl : f64) : value :=
-  if in_i64 exact then VInt exact else from_float fl.
+  (* out of range: the (rounded) float, kept a float even when it is -2^63 exactly (fix: i64::MIN - 1 is not i64::MIN) *)
+  if in_i64 exact then VInt exact else VFloat fl.
 
 Definition vadd_typed (l r : value) : res value :=
   match l, r with
